@@ -175,6 +175,28 @@ def run(ctx):
         bad = sorted((reach & src_fns) | (reach & lock_fns))
         R.ob(not bad, "PURE", f.where(), "PURE|%s" % name, "%s can reach a lock/clock/env read (%s): no longer a pure function of the call" % (name, [F.fns[x].name for x in bad][:3]),
              sample={"rule": "PURE", "fn": name, "reachable_bodies": len(reach)})
+    # ---- 3b. pinned derivations: values two builds of one protocol version must compute identically are, like the consensus
+    # constants, part of what the version number promises.  The hash a signed transaction is known by is keccak256 of the
+    # *inscribed bytes as received* (after the activation height) or the signing hash (before it) - not a hash of a re-encoding
+    # of the decoded transaction, which differs for every payload the decoder accepts but would not produce itself
+    import enginerules as ER2
+    gi_ = ER2.engine_methods(F).get("get_info_from_raw_tx")
+    frt = [f_ for f_ in F.fns.values() if f_.name.endswith("TxInfo::from_raw_transaction")]
+    R.floor("signed_tx_hash_site", 1 if (gi_ is not None and frt) else 0, 1)
+    if gi_ is not None and frt:
+        pn_ = frt[0].j.get("param_names") or []
+        for c_ in gi_.calls():
+            if c_.target_id != frt[0].id or gi_.is_cleanup(c_.bb) or "tx_hash" not in pn_:
+                continue
+            th = origin(gi_, c_.args[pn_.index("tx_hash")])
+            ks = [x for x in calls_in(th) if x[1].split("::")[-1] == "keccak256"]
+            raw = [x for x in ks if x[2] and mentions(x[2][0], "raw_tx") and not any(y[1].split("::")[-1] not in ("deref", "as_slice", "as_ref", "borrow", "clone", "as_mut_slice")
+                                                                                     for y in calls_in(x[2][0]))]
+            sig = [x for x in ks if x[2] and mentions(x[2][0], "encoded_for_signing")] or [x for x in calls_in(th) if x[1].split("::")[-1] == "signature_hash"]
+            other = [x[1].split("::")[-1] for x in calls_in(th) if x[1].split("::")[-1] in ("tx_hash", "trie_hash", "hash_slow", "encode_2718", "rlp_encode", "encoded_2718", "eip2718_encode", "rlp_encode_signed")]
+            R.ob(bool(raw) and bool(sig) and not other, "DERIVE", c_.where(), "DERIVE|signed-tx-hash",
+                 "the hash of a signed transaction is `%s`; the protocol pins keccak256(inscribed bytes) after the activation height and the signing hash "
+                 "before it" % show(th)[:120], sample={"rule": "DERIVE", "value": "signed tx hash", "row": "keccak256(raw_tx) | signing hash, chosen by use_rlp_hash"})
     # ---- 4. CONST
     man = construle.manifest(F, ctx.repo)
     pinned = ctx.table(PINNED)
